@@ -18,6 +18,7 @@ TRUSTED = ["harness/lib_setup.py (generator, canonicaliser, reachability and dis
 ASSUMPTIONS = ["as C01; reachability and depth are taken over the tables of every declared version of a product "
                "(reading ii of DESIGN.md section 6 C04, over-approximated)"]
 PID = "C04"
+MIRRORS = L.mirrors(PID)
 
 
 def aim_keep_at_line_tag(rng, case):
@@ -27,6 +28,8 @@ def aim_keep_at_line_tag(rng, case):
     beta = g["tags"]["beta"]
     cands = []
     for d in g["decls"]:
+        if d.get("shared"):
+            continue                # every version of the product reads ONE table file: its lines are not edited one by one
         for seg in d["table"]:
             for a in ([seg] if "if" not in seg else seg["if"] + seg["else"]):
                 if a.get("a") == "dep" and a["name"] in beta:
@@ -55,10 +58,13 @@ def run(ctx):
     while done < target and not ctx.out_of_time() and time.time() < soft:
         batch = [L.gen_case(ctx.rng, nreq=ctx.rng.randint(2, 5)) for _ in range(96)]
         batch = [aim_keep_at_line_tag(ctx.rng, c) if ctx.rng.random() < 0.15 else c for c in batch]
+        batch += [L.gen_generic_keep_case(ctx.rng) for _ in range(10)]      # --keep over a set-up product of flavor generic
         L.evaluate(ctx, PID, batch, stats)
         done += sum(len(c["history"]) for c in batch)
     for k, v in sorted(stats.items()):
         ctx.hist("stat_" + k, v)
+    if done >= 600 and (stats.get("class_keep_generic", 0) < 3 or stats.get("class_prefix_bystander", 0) < 5):
+        raise common.InfraError("input classes of round 3 under their floors: %r of %d requests" % (stats, done))
     if done >= 300 and (stats.get("c04_keep", 0) < 20 or stats.get("c04_depth", 0) < 40 or stats.get("c04_frame", 0) < 100):
         raise common.InfraError("degenerate distribution: %r of %d requests" % (stats, done))
 
